@@ -309,3 +309,15 @@ Definition slot_env (gname : option str) (r : rinfo) : list (str * str) :=
   [ (s_GLOBAL_SLOT, dec_str (r_gslot r));
     (s_GROUP, match gname with Some n => n | None => s_at_global end);
     (s_GROUP_SLOT, match r_grp r with Some (_, t) => dec_str t | None => s_none end) ].
+
+(* ---- the environment as a function of the future in progress alone.
+   The key handed to future_queue_grouped IS the group's configured name (CustomTestGroup); the
+   model numbers the groups, [names k] is the name of group k. run_test_inner takes the name from
+   test.settings.test_group() -- the group of the item -- and the slots from the
+   FutureQueueContext. *)
+Definition env_group (names : N -> str) (r : rinfo) : str :=
+  match it_grp (r_item r) with Some k => names k | None => s_at_global end.
+Definition env_group_slot (r : rinfo) : str :=
+  match r_grp r with Some (_, t) => dec_str t | None => s_none end.
+Definition test_env (names : N -> str) (r : rinfo) : list (str * str) :=
+  slot_env (option_map names (it_grp (r_item r))) r.
